@@ -121,6 +121,11 @@ def make_context(kind, params, rm):
         return fp.MPFixedContext(-1, getattr(fp.RM, rm), enable_nan=False, enable_inf=False, enable_neg_zero=False)
     if kind == 'ieee':
         return fp.IEEEContext(params[0], params[1], getattr(fp.RM, rm))
+    if kind == 'fixed':
+        scale, nbits = params
+        if nbits < 1:
+            raise ValueError('fixed: nbits = %d' % nbits)
+        return fp.FixedContext(True, scale, nbits, getattr(fp.RM, rm), fp.OV.SATURATE)
     raise ValueError(kind)
 
 
@@ -274,7 +279,12 @@ def run_task(task):
                     e.require(False, info={'variant': lab, 'reading the core back raised': g[1]}, tag=lab)
                 continue
             try:
-                got = ('ok', norm(rt.eval(g, sa.build(), None, convert=False)))
+                got = ('ok', norm(tv.with_timeout(lambda: rt.eval(g, sa.build(), None, convert=False), tv.RUN_LIMIT_S)))
+            except tv.TransformTimeout:
+                # the core has a value on this path (the reference returned); the FPy side is still running
+                if want[0] == 'ok':
+                    e.require(False, info={'variant': lab, 'FPy side did not return within %d s on this path' % tv.RUN_LIMIT_S: True}, tag=lab)
+                continue
             except Exception as ex:  # noqa
                 got = ('raise', ex)
             if want[0] == 'stuck':
@@ -383,7 +393,11 @@ def judge_concrete(task, args):
                 problems.append((lab, 'reading the core back raised %s' % g[1]))
             continue
         try:
-            got = ('ok', norm(byte.BytecodeInterpreter().eval(g, tuple(args), None, convert=False)))
+            got = ('ok', norm(tv.with_timeout(lambda: byte.BytecodeInterpreter().eval(g, tuple(args), None, convert=False), tv.RUN_LIMIT_S)))
+        except tv.TransformTimeout:
+            if want[0] == 'ok':
+                problems.append((lab, 'reference %s, the FPy side did not return within %d s' % (tv._show(want[1]), tv.RUN_LIMIT_S)))
+            continue
         except Exception as ex:  # noqa
             got = ('raise', repr(ex)[:160])
         if want[0] == 'stuck':
